@@ -157,6 +157,7 @@ void warnx(const char * fmt, ...) { (void)fmt; }
 /* ------------------------------------------------------------------ allocator */
 int w_in_lib;			/* the current code is library code */
 long w_fail_countdown;		/* > 0: the k-th library allocation from now fails */
+int w_fail_persist;		/* ... and so does every later one until disarmed */
 int w_fail_hit;			/* an allocation was refused */
 long w_lib_allocs;		/* library allocation requests seen */
 static long w_lib_live;
@@ -219,6 +220,8 @@ w_refuse(void)
 	w_lib_allocs++;
 	if (w_fail_countdown > 0 && --w_fail_countdown == 0) {
 		w_fail_hit = 1;
+		if (w_fail_persist)
+			w_fail_countdown = 1;
 		errno = ENOMEM;
 		return (1);
 	}
